@@ -262,7 +262,7 @@ def shutdown_chain_walks(rng, n):
     return drive_scripts(items)
 
 
-TEXTS = ["a\n", "b", "", "c\nd", "\n", "e\n\nf", "gh\n"]
+TEXTS = ["a\n", "b", "", "c\nd", "\n", "e\n\nf", "gh\n", "\x1b[0;1mz\x1b\n", "\x1bc"]
 
 
 def thread_text(t, s):
@@ -328,6 +328,13 @@ def gen_schedules(chk):
     w = Walk(small[0], "running", 0, {})
     w.take([8])
     add(explore(rng, w, depth, cap // 2), "exhaustive-running-other-session")
+    # escape sequences in the text: Output.write shows ESC as "?" (raw=False), write_raw passes it on (raw=True)
+    esc = [[("w", "\x1b[1mx\n")], [("w", "Y\x1b"), ("f",)]]
+    for cfg in (1, 9):
+        add(explore(rng, Walk(esc, "noapp", cfg, {}), depth, cap // 3), "exhaustive-escape")
+        w = Walk(esc, "running", cfg, {})
+        w.take([8])
+        add(explore(rng, w, depth + 1, cap // 3), "exhaustive-escape")
     w = Walk(small[0], "lifecycle", 1, {8: 1, 9: 1, 11: 1, 14: 1})
     add(explore(rng, w, depth + 1, cap), "exhaustive-lifecycle")
     # outputs that answer cursor position requests: a print waits for the outstanding report
@@ -338,18 +345,18 @@ def gen_schedules(chk):
     # random deep walks
     n = 900 if thorough else 110
     wt_flush = {4: 3.0, 5: 3.0, 6: 3.0, 7: 3.0, 12: 3.0, 15: 2.0, 17: 1.5, 18: 0.7}
-    starts = [Walk(rand_program(rng, rng.randint(1, 4), 4), "noapp", 1, {"early_close": rng.random() < 0.2})
+    starts = [Walk(rand_program(rng, rng.randint(1, 4), 4), "noapp", rng.choice([1, 1, 9]), {"early_close": rng.random() < 0.2})
               for _ in range(n)]
     add(random_walks(rng, starts, 60, wt_flush), "random-noapp")
     starts = []
     for _ in range(n):
-        w = Walk(rand_program(rng, rng.randint(1, 4), 4), "running", rng.choice([1, 1, 3, 3, 2]), {13: 2, 14: 2})
+        w = Walk(rand_program(rng, rng.randint(1, 4), 4), "running", rng.choice([1, 1, 3, 3, 2, 9, 11, 8]), {13: 2, 14: 2})
         w.take([8])
         starts.append(w)
     add(random_walks(rng, starts, 70, wt_flush), "random-running")
     starts = []
     for _ in range(n):
-        w = Walk(rand_program(rng, rng.randint(1, 3), 4), "lifecycle", rng.choice([1, 1, 3, 3, 0, 2]),
+        w = Walk(rand_program(rng, rng.randint(1, 3), 4), "lifecycle", rng.choice([1, 1, 3, 3, 0, 2, 9, 11]),
                  {8: 2, 9: 2, 11: 1, 13: 1, 14: 1, "early_close": rng.random() < 0.1})
         starts.append(w)
     add(random_walks(rng, starts, 70, {**wt_flush, 8: 2.0, 9: 0.6, 11: 0.4}), "random-lifecycle")
@@ -367,7 +374,8 @@ def nwriters_of(labels):
 def replay_schedule(ctx, labels, complete=True):
     """-> (canonical result like the model's, info dict for the oracle)"""
     steps = mark_reports(labels)
-    rig = c20_rig.Rig(bool(ctx & 1), True, nwriters_of(labels), cpr=bool(ctx & 2), runstyle=bool(ctx & 4))
+    rig = c20_rig.Rig(bool(ctx & 1), True, nwriters_of(labels), cpr=bool(ctx & 2), runstyle=bool(ctx & 4),
+                      raw=bool(ctx & 8))
     obs = []
     status = None
     try:
@@ -436,7 +444,7 @@ def unbracketed_events(events):
             erased = True
         elif e[0] == "r":
             erased = False
-        elif e[4] or (e[2] and not (e[3] and erased)):
+        elif e[0] == "w" and (e[4] or (e[2] and not (e[3] and erased))):
             bad.append(e)
     return bad
 
@@ -515,18 +523,31 @@ def cause_of(ctx, labels, fam=None, flags=(), explained=True):
     return "none"
 
 
-def oracle_trace(events, per_thread, complete, early_close=False):
+def oracle_trace(events, per_thread, complete, early_close=False, raw=False):
     """-> list of (family, message).  `per_thread`: texts each writer wrote, in
     its own order.  `complete`: the run was flushed, closed and drained."""
     bad = []
-    out = "".join(e[1] for e in events if e[0] == "w")
+    # what the TERMINAL received: text written to the Output object and flushed.  Text still in
+    # the Output's buffer at the end of a complete run is its own failure; the remaining clauses
+    # then judge what the terminal would show once that buffer is flushed (the buffer is FIFO).
+    term, pend = c20_rig.flushed_text(events)
+    out = term + pend
+    if complete and pend:
+        bad.append(("never-flushed", "text %r was written to the Output object but never flushed: it did not reach "
+                    "the terminal (terminal text %r)" % (pend, term)))
     erased = False
     for e in events:
         if e[0] == "e":
             erased = True
         elif e[0] == "r":
             erased = False
-        else:
+        elif e[0] == "w":
+            # the characters handed to the Output object arrive in its buffer unchanged, except
+            # that Output.write (raw=False) shows an ESC as "?"
+            want_bytes = e[1] if raw else e[1].replace("\x1b", "?")
+            if e[6] is not None and e[6] != want_bytes:
+                bad.append(("bytes-changed", "text %r (StdoutProxy(raw=%s)) arrived in the Output's buffer as %r, expected %r"
+                            % (e[1], raw, e[6], want_bytes)))
             run, interm, in_render = e[2], e[3], e[4]
             if in_render:
                 bad.append(("unbracketed-write", "text %r written while the renderer was drawing" % (e[1],)))
@@ -662,7 +683,11 @@ def _stress(chk, scenario, nthreads, nwrites, seed):
     bad = []
     attrib = {}
     if not errors:
-        out = rig.out_text()
+        pend = rig.unflushed_text()
+        out = rig.out_text() + pend
+        if pend:
+            bad.append(("never-flushed", "%d characters were written to the Output object but never flushed "
+                        "(they did not reach the terminal): %r" % (len(pend), pend[:60])))
         unb = unbracketed_events(rig.events)
         if unb:
             e = unb[0]
@@ -856,7 +881,7 @@ def judge_schedule(chk, ctx, labels, origin, info):
     """Oracle on one replayed schedule; returns True when it failed."""
     per = per_thread_texts(labels)
     early = writes_after_close(labels)
-    bad = oracle_trace(info["events"], per, True, early_close=early)
+    bad = oracle_trace(info["events"], per, True, early_close=early, raw=bool(ctx & 8))
     if any(n == "patch-stdout-flush-thread" for n, _ in info["crashed"]):
         bad.append(("flush-thread-died", "the flush thread died: %s" % (info["crashed"][0][1],)))
     for p in info["problems"]:
@@ -870,7 +895,7 @@ def judge_schedule(chk, ctx, labels, origin, info):
                              lambda text: interleaving_ok(text, per))
         cause = cause_of(ctx, labels, fam, info.get("flags", ()), explained=expl)
         chk.violation("oracle", "%s [%s; proxy in %s session] schedule: %s" % (
-            msg, origin, ("the default" if ctx & 1 else "a create_app_session()") + (", output answering CPR" if ctx & 2 else ""), show(labels)),
+            msg, origin, ("the default" if ctx & 1 else "a create_app_session()") + (", output answering CPR" if ctx & 2 else "") + (", StdoutProxy(raw=True)" if ctx & 8 else ""), show(labels)),
             {"family": fam, "cause": cause},
             {"ctx_default": int(ctx), "labels": labels, "family": fam, "clause": msg,
              "how": "harness/c20.py replay_schedule: real StdoutProxy/Application driven label by label"})
@@ -912,7 +937,7 @@ def main(tier):
         if judge_schedule(chk, ctx, labels, origin, info):
             oracle_bad.add(i)
         if i % 211 == 0:
-            chk.sample({"origin": origin, "schedule": show(labels), "terminal_text": "".join(e[1] for e in info["events"] if e[0] == "w")})
+            chk.sample({"origin": origin, "schedule": show(labels), "terminal_text": c20_rig.flushed_text(info["events"])[0]})
     t_replay = time.time() - t_replay
 
     def tagger(c, a, m):
@@ -925,7 +950,7 @@ def main(tier):
                    oracle_failed=lambda i: i in oracle_bad)
 
     # malformed cases: the model must answer bad_case
-    mal = [[0, 1, [[[99], 1]]], [0, 9, []], [7], [1, 1, [[4]], [[77]]], [0, 1, [[[16, -1], 1]]]]
+    mal = [[0, 1, [[[99], 1]]], [0, 16, []], [7], [1, 1, [[4]], [[77]]], [0, 1, [[[16, -1], 1]]]]
     for m, r in zip(mal, run_model("c20", mal)):
         if r != [-999]:
             chk.violation("tie", "model accepted malformed case %r -> %r" % (m, r), {"kind": "malformed"}, {"case": m}, no_input=True)
@@ -985,13 +1010,15 @@ def main(tier):
                             "application/loop/run-in-terminal steps) enumerated exhaustively to depth 8-10 for three 2-thread "
                             "programs and random-walked to depth 60-70 FROM THE MODEL (enabledness queries), replayed on a real "
                             "StdoutProxy + Application(pipe input, Vt100_Output(StringIO)) and compared after every step with the "
-                            "model (flush thread position and locals, _buffer, queue, pending callbacks, app flags, chain, trace); "
+                            "model (flush thread position and locals, _buffer, queue, pending callbacks, app flags, chain, trace incl. the proxy's flushes, bytes appended to the Output per write, bytes flushed to the terminal); "
                             "non-trivial = text reached the terminal; plus free-running 4-thread stress judged by the oracle only")
     chk.assumptions += [
         "one label = one atomic step: the locked body of write/flush, one queue operation of the flush thread, one event-loop callback; preemption inside these (GIL/bytecode level), queue.Queue's own locking and asyncio's FIFO ready queue are assumed, exercised only by the free-running stress",
         "time.sleep(sleep_between_writes) only delays the flush thread (no-op in the model); gated replays use 0",
         "set_is_running/set_loop/set_app of run_async are one step (AppStart), their exits one step (AppStop)",
-        "positive in-order/bracket theorems need: no application start/stop/loop-close during the run (AppExit is allowed; refuted without: C20_bracket_start_refuted, C20_stop_race_refuted); the session flag c they quantify over is read by no model step (that the callback sees the proxy's own session is built into LLoopStep) - tied by the other-session replays only",
+        "positive in-order/bracket theorems across application start/exit/stop/loop-close/restart need loop validity (Model: valid - no AppStart between a `_get_app_loop() -> None` and its use, no AppStop between a `-> loop` and its use or with a callback pending; refuted without: C20_bracket_start_refuted, C20_stop_race_refuted, whose witnesses are not valid: C20_races_violate_validity); the session flag c is read by LoopStep through get_app_or_none(cb_session ...): that the callback sees the proxy's own session follows from context=self._context.copy() (cb_session true), the pre-fix step (step_noctx) is refuted for a proxy of another session",
+        "what reaches the terminal = text written to the Output object before a flush of it (rig: every flush of the real Vt100_Output is logged; model: EFlush after every write, Renderer.erase/render end with a flush); Vt100_Output.write's ESC->'?' replacement and raw=True are a function of the observation (vt_write), compared per write event with what the real Output appended to its buffer",
+        "loop-side progress (C20_loop_side_progress) counts a foreign in_terminal section ending and the CPR wait timing out as steps the environment eventually takes (fairness); exceptions in callbacks are outside",
         "CPR requests are keyed on _is_running in the model, on is_done/input_queue in the code; the window between exit() and _is_running=False is not replayed",
         "the 'lost' list compared with the model is the rig's bookkeeping of batches it held when a loop was closed; C20_flush_thread_never_dies is a model sanity lemma (step has no crash transition)",
         "Render is replayed as Application._redraw() in the loop, not through invalidate()'s postponing scheduler",
@@ -1025,20 +1052,23 @@ def replay(data):
     print("schedule:", show(labels))
     res, info = replay_schedule(ctx, labels)
     for e in info["events"]:
-        print("   ", {"e": "erase", "r": "render"}.get(e[0], None) or
+        if e[0] == "F":
+            continue
+        print("   ", {"e": "erase", "r": "render", "f": "flush (by the proxy)"}.get(e[0], None) or
               "write %r  app._is_running=%s _running_in_terminal=%s thread=%s" % (e[1], e[2], e[3], e[5]))
     if info["crashed"]:
         print("    thread died:", info["crashed"])
     if info["status"]:
         print("    replay stopped:", info["status"])
     per = per_thread_texts(labels)
-    bad = oracle_trace(info["events"], per, True, early_close=writes_after_close(labels))
+    bad = oracle_trace(info["events"], per, True, early_close=writes_after_close(labels), raw=bool(ctx & 8))
     if any(n == "patch-stdout-flush-thread" for n, _ in info["crashed"]):
         bad.append(("flush-thread-died", info["crashed"][0][1]))
     for p in info["problems"]:
         bad.append(("lost", p))
     print("written per thread:", per)
-    print("terminal text:", repr("".join(e[1] for e in info["events"] if e[0] == "w")))
+    print("terminal text (written and flushed):", repr(c20_rig.flushed_text(info["events"])[0]),
+          "| left in the Output's buffer:", repr(c20_rig.flushed_text(info["events"])[1]))
     for fam, msg in bad:
         print("ORACLE FAILS [%s]: %s" % (fam, msg))
     if not bad:
